@@ -11,6 +11,7 @@
 #include <symengine/functions.h>
 #include <symengine/sets.h>
 #include <symengine/logic.h>
+#include <symengine/polys/msymenginepoly.h>
 using namespace SymEngine;
 static std::vector<RCP<const Basic>> composite_pool(const std::string &obl)
 {
@@ -50,6 +51,39 @@ static int composite_search(const std::string &obl, bool order_axioms)
         for (auto &a : o) for (auto &b : o) for (auto &c : o) { if (a->get_type_code() != b->get_type_code() || b->get_type_code() != c->get_type_code()) continue;
             int ab = a->__cmp__(*b), bc = b->__cmp__(*c), ac = a->__cmp__(*c);
             if ((ab <= 0 && bc <= 0 && ac > 0) || (ab < 0 && bc <= 0 && ac >= 0)) { std::cout << "a = " << a->__str__() << "\nb = " << b->__str__() << "\nc = " << c->__str__() << "\nREPRODUCED: compare is not transitive\n"; return 1; } }
+    std::cout << "not reproduced on the pool\n";
+    return 0;
+}
+// C01.MIntPoly.*: every pair of a pool of small real MIntPoly objects over the variable sets {}, {x}, {y}, {x,y}.
+// Pairs of constant polynomials over different variable sets (eq by design) are part of the pool.
+static int mpoly_search(const std::string &obl)
+{
+    RCP<const Basic> x = symbol("x"), y = symbol("y");
+    std::vector<vec_basic> vs = {{}, {x}, {y}, {x, y}};
+    std::vector<RCP<const MIntPoly>> o;
+    for (auto &v : vs) {
+        unsigned n = (unsigned)v.size();
+        std::vector<vec_uint> es;
+        if (n == 0) es = {{}}; else if (n == 1) es = {{0}, {1}, {2}}; else es = {{0, 0}, {1, 0}, {0, 2}, {1, 1}};
+        o.push_back(MIntPoly::from_dict(v, {}));
+        for (auto &e1 : es) for (long c : {3L, -2L}) {
+            o.push_back(MIntPoly::from_dict(v, {{e1, integer_class(c)}}));
+            for (auto &e2 : es) if (e1 < e2) o.push_back(MIntPoly::from_dict(v, {{e1, integer_class(c)}, {e2, integer_class(3)}}));
+        }
+    }
+    std::cout << "searching " << o.size() << " MIntPoly objects\n";
+    auto constant = [](const MIntPoly &p) { if (p.get_poly().dict_.size() > 1) return false; for (auto &t : p.get_poly().dict_) for (auto k : t.first) if (k) return false; return true; };
+    for (auto &a : o) for (auto &b : o) {
+        bool e = a->__eq__(*b), same_vars = unified_eq(a->get_vars(), b->get_vars());
+        const char *why = nullptr;
+        if (obl.find("eq_implies_equal_hash") != std::string::npos) { if (e && a->hash() != b->hash()) why = "eq(a,b) but hash(a) != hash(b)"; }
+        else if (obl.find("eq_symmetric") != std::string::npos) { if (e != b->__eq__(*a)) why = "eq is not symmetric"; }
+        else if (obl.find("same_terms") != std::string::npos) { if (e && same_vars && !(a->get_poly().dict_ == b->get_poly().dict_)) why = "eq(a,b) over the same variables with different term dictionaries"; }
+        else if (obl.find("is_constant") != std::string::npos) { if (a->is_constant() != constant(*a)) why = "is_constant() disagrees with 'no non-zero exponent'"; }
+        else if (obl.find("equal_constants_over_any_variables") != std::string::npos) { if (!e && constant(*a) && constant(*b) && a->get_poly().dict_.size() == b->get_poly().dict_.size() && (a->get_poly().dict_.empty() || a->get_poly().dict_.begin()->second == b->get_poly().dict_.begin()->second)) why = "equal constants over different variable sets are not eq"; }
+        else if (obl.find("constant_with_a_nonconstant") != std::string::npos) { if (e && a->get_poly().dict_.size() == 1 && b->get_poly().dict_.size() == 1 && constant(*a) != constant(*b)) why = "eq identifies a constant with a non-constant term"; }
+        if (why) { std::cout << "a = " << a->__str__() << " over " << a->get_vars().size() << " variable(s)\nb = " << b->__str__() << " over " << b->get_vars().size() << " variable(s)\nREPRODUCED: " << why << "\n"; return 1; }
+    }
     std::cout << "not reproduced on the pool\n";
     return 0;
 }
